@@ -264,3 +264,93 @@ _targets_without_detect = targets
 
 def targets():      # noqa: F811
     return _targets_without_detect() + [target_detect_columns()]
+
+
+# ------------------------------------------------------------------------------------------------ the pipeline around the three contracts
+_targets_without_pipeline = targets
+
+
+def target_dataframe_pipeline():
+    """dataframe_to_data_sets is the composition of the three functions under contract above and nothing else: the table it is GIVEN
+    (not a filtered, de-duplicated or re-ordered one) goes to _detect_columns and to _extract_data, the columns _extract_data reads
+    are those _detect_columns named, the rows _split_sweeps cuts into sweeps are those _extract_data returned, and the data sets
+    returned are those of _split_sweeps, in order (renamed '<label> (k)' only when there are several).  parse_csv hands the table
+    pandas read to it unchanged.  The real functions run on EUF terms (E3)."""
+    from pyvc import overload as O
+    from . import dataflow as DF
+    from .dataflow import T, opaque
+
+    def run(sess: Session):
+        for n_sets in (1, 3):
+            df, path, label, degrees = T.var("df"), "p.csv", "lbl", T.var("degrees")
+            seen = {}
+
+            class DS:
+                def __init__(self, k):
+                    self.k, self.lab = k, f"L{k}"
+
+                def get_label(self):
+                    return self.lab
+
+                def set_label(self, s):
+                    self.lab = s
+            sets = [DS(k) for k in range(n_sets)]
+
+            def detect(d):
+                seen["detect"] = d
+                return T.var("column_indices"), T.var("negative_columns")
+
+            def extract(*a):
+                seen["extract"] = a
+                return T.var("frequency"), T.var("real"), T.var("imaginary")
+
+            def split(*a):
+                seen["split"] = a
+                return list(sets)
+            ns = {"_detect_columns": detect, "_extract_data": extract, "_split_sweeps": split, "_is_boolean": lambda x: True,
+                  "isinstance": lambda x, c: True if (c is str and isinstance(x, str)) else (False if c is not str and isinstance(x, str) else True), "Path": type("Path", (), {}), "DataFrame": object}
+            O.load("data/data_set", ["dataframe_to_data_sets"], ns)
+            fn = ns["dataframe_to_data_sets"]
+            out = fn(df, path=path, label=label, degrees=degrees)
+            tag = f"[{n_sets} sweep(s)]"
+            DF.eq_check(sess, f"_detect_columns is given the table that was passed in {tag}", seen.get("detect"), df)
+            a = seen.get("extract", ())
+            sess.check("post", [], z3.BoolVal(len(a) == 5), 0, label=f"_extract_data is called with table, columns, signs, path, degrees {tag}")
+            if len(a) == 5:
+                DF.eq_check(sess, f"_extract_data is given the table that was passed in {tag}", a[0], df)
+                DF.eq_check(sess, f"_extract_data reads the columns _detect_columns named {tag}", (a[1], a[2]), (T.var("column_indices"), T.var("negative_columns")))
+                DF.eq_check(sess, f"_extract_data is told whether phases are in degrees {tag}", a[4], degrees)
+            b = seen.get("split", ())
+            sess.check("post", [], z3.BoolVal(len(b) == 5), 0, label=f"_split_sweeps is called with the three columns, path, label {tag}")
+            if len(b) == 5:
+                DF.eq_check(sess, f"_split_sweeps cuts the rows _extract_data returned {tag}", tuple(b[:3]), (T.var("frequency"), T.var("real"), T.var("imaginary")))
+                sess.check("post", [], z3.BoolVal(b[3] == path and b[4] == label), 0, label=f"path and label are handed on {tag}")
+            ok = isinstance(out, list) and len(out) == n_sets and all(o is s_ for o, s_ in zip(out, sets))
+            sess.check("post", [], z3.BoolVal(ok), 0, label=f"the data sets of _split_sweeps are returned, all of them, in order {tag}")
+            want = [f"L{k}" if n_sets == 1 else f"L{k} ({k + 1})" for k in range(n_sets)]
+            sess.check("post", [], z3.BoolVal([s_.lab for s_ in sets] == want), 0, label=f"labels: unchanged for one sweep, '<label> (k)' for several {tag}")
+
+        # parse_csv: what pandas read is what is converted
+        read = {"n": 0}
+
+        def read_csv(path, **kw):
+            read["n"] += 1
+            read["kw"] = dict(kw)
+            t = T.var(f"table{read['n']}")
+            return type("DFrame", (), {"columns": [0, 1, 2], "t": t})()
+        got = {}
+
+        def d2ds(df, path=None, **kw):
+            got["df"], got["path"], got["kw"] = df, path, kw
+            return ["sets"]
+        ns = {"_validate_path": lambda p: None, "dataframe_to_data_sets": d2ds, "read_csv": read_csv, "DataFrame": object}
+        O.load("data/formats/csv", ["parse_csv"], ns)
+        fn = ns["parse_csv"]
+        out = fn("p.csv")
+        sess.check("post", [], z3.BoolVal(read["n"] == 1 and got.get("df") is not None and str(got["df"].t.e) == "table1"), 0, label="parse_csv converts the table pandas read, as read")
+        sess.check("post", [], z3.BoolVal(got.get("path") == "p.csv" and out == ["sets"]), 0, label="parse_csv hands on the path and returns the data sets")
+    return ("data/data_set:dataframe_to_data_sets", "data/data_set", "dataframe_to_data_sets", run)
+
+
+def targets():      # noqa: F811
+    return _targets_without_pipeline() + [target_dataframe_pipeline()]
